@@ -140,8 +140,8 @@ def main():
             status[suffix] = "out-of-grammar: %s" % e
             outs.append("(* %s: %s *)" % (suffix, status[suffix]))
         outs.append("")
-    os.makedirs(os.path.join(core.COQ, "gen"), exist_ok=True)
-    p = os.path.join(core.COQ, "gen", "StopChain.v")
+    os.makedirs((os.environ.get("VERIF_GEN_OUT") or os.path.join(core.COQ, "gen")), exist_ok=True)
+    p = os.path.join(os.environ.get("VERIF_GEN_OUT") or os.path.join(core.COQ, "gen"), "StopChain.v")
     txt = "\n".join(outs) + "\n"
     if not os.path.exists(p) or open(p).read() != txt:
         open(p, "w").write(txt)
